@@ -1,3 +1,324 @@
 import GnpyModel
-/- Property theorems for C03 (only the property theorems and their non-vacuity examples live here;
-   helper lemmas go to GnpyProofs/Lemmas). -/
+import GnpyProofs.Lemmas.Gn
+/- Property theorems for C03 — fibre NLI equals the GN-model closed form and obeys its scaling laws.
+   Model: GnpyModel/Gn.lean (`nli` = `NliSolver.compute_nli`, transliterated with the code's broadcasting;
+   the model IS the published closed form, the correspondence check ties the code to it).
+   All statements over ℝ with π = Real.pi.  `WF c`: loss coefficient > 0, baud rate > 0, power ≥ 0. -/
+namespace Gnpy.Gn
+
+/-! ### the weights -/
+
+/-- SPM weight 16/27, XPM weight 32/27 -/
+theorem weights : (spmW : ℝ) = 16 / 27 ∧ (xpmW : ℝ) = 32 / 27 := by
+  simp only [spmW, xpmW, Nat.cast_ofNat]; norm_num
+
+theorem xpm_twice_spm : (xpmW : ℝ) = 2 * spmW := by
+  simp only [spmW, xpmW, Nat.cast_ofNat]
+
+/-- in the index form the diagonal carries the SPM weight and every other entry the XPM weight;
+in the frequency form the channel itself carries SPM, every other frequency XPM -/
+theorem wgtF_self (c : LCh ℝ) : wgtF c c = spmW := by simp [wgtF]
+theorem wgtF_other (ci cj : LCh ℝ) (h : ci.f ≠ cj.f) : wgtF ci cj = xpmW := by
+  simp [wgtF, lt_or_gt_of_ne h]
+
+/-! ### the kernel -/
+
+/-- the asinh kernel `ψ` is non-negative -/
+theorem psi_nonneg (len : ℝ) (ci cj : LCh ℝ) (hi : WF ci) (hj : WF cj) : 0 ≤ psi len ci cj :=
+  psi_nonneg' len ci cj hj.alpha_pos (le_of_lt hi.b_pos) (le_of_lt hj.b_pos)
+
+/-- **SPM term**: on the diagonal the kernel reduces to
+`asinh(π²/2 · |β₂| · L_a · B²) / (2π |β₂| L_a) · L_eff²` (eq. 120 of arXiv:1209.0394 for one channel) -/
+theorem spm_formula (len : ℝ) (c : LCh ℝ) :
+    psi len c c = Real.arsinh (Real.pi ^ 2 / 2 * |c.beta2| * (1 / c.alpha) * c.b ^ 2)
+      / (2 * Real.pi * |c.beta2| * (1 / c.alpha)) * effLength c.alpha len ^ 2 := by
+  simp only [psi, transc_abs, transc_asinh, haspi_real, Nat.cast_ofNat, Nat.cast_one]
+  have h1 : (c.beta2 + c.beta2) / 2 = c.beta2 := by ring
+  have h2 : Real.pi * Real.pi * (1 / c.alpha) * |c.beta2| * c.b * (c.f - c.f - c.b / 2)
+      = -(Real.pi ^ 2 / 2 * |c.beta2| * (1 / c.alpha) * c.b ^ 2) := by ring
+  have h3 : Real.pi * Real.pi * (1 / c.alpha) * |c.beta2| * c.b * (c.f - c.f + c.b / 2)
+      = Real.pi ^ 2 / 2 * |c.beta2| * (1 / c.alpha) * c.b ^ 2 := by ring
+  rw [h1, h2, h3, Real.arsinh_neg]
+  ring
+
+/-- the effective length is positive, below the asymptotic length `1/α` and below the physical length -/
+theorem effLength_pos (alpha len : ℝ) (ha : 0 < alpha) (hl : 0 < len) :
+    0 < effLength alpha len ∧ effLength alpha len < 1 / alpha ∧ effLength alpha len ≤ len := by
+  simp only [effLength, transc_exp, Nat.cast_one]
+  have hx : 0 < alpha * len := mul_pos ha hl
+  have he : Real.exp (-alpha * len) < 1 := by
+    rw [show -alpha * len = -(alpha * len) by ring, Real.exp_lt_one_iff]; linarith
+  have hp : 0 < Real.exp (-alpha * len) := Real.exp_pos _
+  refine ⟨div_pos (by linarith) ha, ?_, ?_⟩
+  · exact div_lt_div_of_pos_right (by linarith) ha
+  · rw [div_le_iff₀ ha]
+    have := Real.add_one_le_exp (-alpha * len)
+    nlinarith
+
+/-! ### non-negativity -/
+
+theorem term_nonneg (w len : ℝ) (ci cj : LCh ℝ) (hw : 0 ≤ w) (hi : WF ci) (hj : WF cj) :
+    0 ≤ term w len ci cj := term_nonneg' w len ci cj hw hi hj
+
+/-- **NLI is non-negative on every channel** -/
+theorem nli_nonneg (len : ℝ) (cs : List (LCh ℝ)) (h : ∀ c ∈ cs, WF c) : ∀ x ∈ nli len cs, 0 ≤ x :=
+  nliFrom_nonneg len cs h cs 0 h
+
+/-- one value per channel -/
+theorem nli_length (len : ℝ) (cs : List (LCh ℝ)) : (nli len cs).length = cs.length :=
+  nliFrom_length len cs cs 0
+
+/-! ### index form (the code) = frequency form -/
+
+/-- on a comb with pairwise distinct centre frequencies the code's weight matrix `spm·I + xpm·(1−I)` is
+"SPM on the channel itself, XPM on every other channel": `compute_nli` is channel by channel `nliOf` -/
+theorem nli_eq_nliSpec (len : ℝ) (cs : List (LCh ℝ)) (hd : cs.Pairwise (fun a b => a.f ≠ b.f)) :
+    nli len cs = nliSpec len cs := by
+  simp only [nli, nliSpec]
+  apply nliFrom_eq_spec len cs hd cs 0
+  intro k hk
+  simp
+
+/-- a comb accepted by `SpectralInformation.__init__` (no overlap, baud ≤ slot, with positive baud rates) has
+strictly increasing, hence pairwise distinct, centre frequencies -/
+theorem nonoverlap_distinct (l : List (ℝ × ℝ × ℝ)) (h : combAccepted l = true) (hb : ∀ c ∈ l, 0 < c.2.1) :
+    l.Pairwise (fun a b => a.1 < b.1) := by
+  simp only [combAccepted, Bool.and_eq_true, Bool.not_eq_true'] at h
+  obtain ⟨hov, hex⟩ := h
+  have hs : ∀ c ∈ l, 0 < c.2.2 := by
+    intro c hc
+    simp only [combExceed, List.any_eq_false, decide_eq_true_eq, not_lt] at hex
+    exact lt_of_lt_of_le (hb c hc) (hex c hc)
+  clear hex hb
+  induction l with
+  | nil => exact List.Pairwise.nil
+  | cons c0 rest ih =>
+    cases rest with
+    | nil => simp
+    | cons c1 rest' =>
+      simp only [combOverlap, Bool.or_eq_false_iff, decide_eq_false_iff_not, not_lt, Nat.cast_ofNat] at hov
+      have ih' := ih hov.2 (fun c hc => hs c (by simp [hc]))
+      have h0 := hs c0 (by simp)
+      have h1 := hs c1 (by simp)
+      have h01 : c0.1 < c1.1 := by linarith [hov.1]
+      rw [List.pairwise_cons]
+      refine ⟨?_, ih'⟩
+      intro c hc
+      rw [List.mem_cons] at hc
+      rcases hc with hc | hc
+      · rw [hc]; exact h01
+      · exact lt_trans h01 ((List.pairwise_cons.1 ih').1 c hc)
+
+/-- loading the fibre coefficients keeps the frequencies -/
+theorem loadAll_f (fib : Fibre ℝ) : ∀ (chans : List (ℝ × ℝ × ℝ)) (cs : List (LCh ℝ)),
+    loadAll fib chans = some cs → cs.map (·.f) = chans.map (·.1) := by
+  intro chans
+  induction chans with
+  | nil => intro cs h; simp [loadAll] at h; subst h; rfl
+  | cons c rest ih =>
+    intro cs h
+    obtain ⟨f, b, p⟩ := c
+    simp only [loadAll] at h
+    cases h1 : load fib f b p with
+    | none => simp [h1] at h
+    | some lc =>
+      cases h2 : loadAll fib rest with
+      | none => simp [h1, h2] at h
+      | some lcs =>
+        simp only [h1, h2, Option.some.injEq] at h
+        subst h
+        have hf : lc.f = f := by
+          simp only [load] at h1
+          split at h1
+          · simp only [Option.some.injEq] at h1; rw [← h1]
+          · simp at h1
+        simp [hf, ih lcs h2]
+
+/-- **the code's `compute_nli` on an accepted comb is the frequency-form closed form** -/
+theorem computeNli_eq_spec (fib : Fibre ℝ) (chans : List (ℝ × ℝ × ℝ)) (slots : List (ℝ × ℝ × ℝ))
+    (hsl : slots.map (·.1) = chans.map (·.1)) (hacc : combAccepted slots = true) (hb : ∀ c ∈ slots, 0 < c.2.1)
+    (cs : List (LCh ℝ)) (hl : loadAll fib chans = some cs) :
+    computeNli fib chans = some (nliSpec fib.len cs) := by
+  simp only [computeNli, hl, Option.map_some]
+  congr 1
+  apply nli_eq_nliSpec
+  have h1 := nonoverlap_distinct slots hacc hb
+  have h2 : (slots.map (·.1)).Pairwise (· < ·) := by rw [List.pairwise_map]; exact h1
+  rw [hsl, ← loadAll_f fib chans cs hl, List.pairwise_map] at h2
+  exact h2.imp (fun h => ne_of_lt h)
+
+theorem nliSpec_nonneg (len : ℝ) (cs : List (LCh ℝ)) (h : ∀ c ∈ cs, WF c) : ∀ x ∈ nliSpec len cs, 0 ≤ x := by
+  intro x hx
+  simp only [nliSpec, List.mem_map] at hx
+  obtain ⟨ci, hci, rfl⟩ := hx
+  simp only [nliOf, sumL_eq_sum]
+  apply List.sum_nonneg
+  intro y hy
+  simp only [List.mem_map] at hy
+  obtain ⟨cj, hcj, rfl⟩ := hy
+  exact term_nonneg' _ len ci cj (wgtF_nonneg ci cj) (h ci hci) (h cj hcj)
+
+/-! ### cubic scaling -/
+
+/-- **NLI scales with the cube of a common power factor** -/
+theorem nli_cubic (len k : ℝ) (cs : List (LCh ℝ)) :
+    nli len (cs.map (scale k)) = (nli len cs).map (fun x => k ^ 3 * x) :=
+  nliFrom_scale len k cs cs 0
+
+theorem nliSpec_cubic (len k : ℝ) (cs : List (LCh ℝ)) :
+    nliSpec len (cs.map (scale k)) = (nliSpec len cs).map (fun x => k ^ 3 * x) := by
+  simp only [nliSpec, List.map_map]
+  apply List.map_congr_left
+  intro ci _
+  simp only [Function.comp, nliOf, sumL_eq_sum, List.map_map]
+  rw [← List.sum_map_mul_left]
+  congr 1
+  apply List.map_congr_left
+  intro cj _
+  simp only [Function.comp]
+  have : wgtF (scale k ci) (scale k cj) = wgtF ci cj := by simp [wgtF, scale]
+  rw [this, term_scale]
+
+/-! ### monotone in every power -/
+
+/-- **raising the power of any channels never lowers the NLI of any channel** -/
+theorem nli_mono_power (len : ℝ) (cs cs' : List (LCh ℝ)) (h : List.Forall₂ Raised cs cs')
+    (hw : ∀ c ∈ cs, WF c) : List.Forall₂ (· ≤ ·) (nli len cs) (nli len cs') :=
+  nliFrom_mono len h hw h hw 0
+
+/-! ### adding a channel, order of the channels -/
+
+/-- the NLI on `ci` from the comb `c :: cs` is the NLI from `cs` plus the term generated by `c` -/
+theorem nli_add_channel_exact (len : ℝ) (c : LCh ℝ) (cs : List (LCh ℝ)) (ci : LCh ℝ) :
+    nliOf len (c :: cs) ci = term (wgtF ci c) len ci c + nliOf len cs ci := by
+  simp [nliOf, sumL]
+
+/-- the NLI on a channel is a symmetric function of the comb -/
+theorem nliOf_perm (len : ℝ) (cs cs' : List (LCh ℝ)) (h : cs.Perm cs') (ci : LCh ℝ) :
+    nliOf len cs ci = nliOf len cs' ci := by
+  simp only [nliOf, sumL_eq_sum]
+  exact (h.map _).sum_eq
+
+/-- **adding a channel (anywhere in the comb) never lowers the NLI of the channels already there**:
+`cs'` is `cs` with the channel `c` inserted at any position; `x`, `y` are the values `compute_nli` returns for the
+same channel `ci` before and after. -/
+theorem nli_mono_add_channel (len : ℝ) (c : LCh ℝ) (cs cs' : List (LCh ℝ)) (hp : cs'.Perm (c :: cs))
+    (hd : cs'.Pairwise (fun a b => a.f ≠ b.f)) (hw : ∀ x ∈ cs', WF x) (ci : LCh ℝ) (x y : ℝ)
+    (hx : (ci, x) ∈ cs.zip (nli len cs)) (hy : (ci, y) ∈ cs'.zip (nli len cs')) : x ≤ y := by
+  have hd1 : (c :: cs).Pairwise (fun a b => a.f ≠ b.f) :=
+    (hp.pairwise_iff (fun {a b} (h : a.f ≠ b.f) => h.symm)).1 hd
+  have hd2 : cs.Pairwise (fun a b => a.f ≠ b.f) := (List.pairwise_cons.1 hd1).2
+  rw [nli_eq_nliSpec len cs hd2] at hx
+  rw [nli_eq_nliSpec len cs' hd] at hy
+  have ex := mem_zip_map (nliOf len cs) cs ci x hx
+  have ey := mem_zip_map (nliOf len cs') cs' ci y hy
+  have hci : ci ∈ cs := (List.of_mem_zip hx).1
+  rw [ex, ey, nliOf_perm len cs' (c :: cs) hp ci, nli_add_channel_exact]
+  have hwc : WF c := hw c (hp.mem_iff.2 (by simp))
+  have hwi : WF ci := hw ci (hp.mem_iff.2 (by simp [hci]))
+  have := term_nonneg' (wgtF ci c) len ci c (wgtF_nonneg ci c) hwi hwc
+  linarith
+
+/-- **the result does not depend on the order in which the channels are supplied**: permuting the comb permutes
+the (channel, NLI) pairs accordingly -/
+theorem nli_perm (len : ℝ) (cs cs' : List (LCh ℝ)) (hp : cs.Perm cs')
+    (hd : cs.Pairwise (fun a b => a.f ≠ b.f)) :
+    (cs.zip (nli len cs)).Perm (cs'.zip (nli len cs')) := by
+  have hd' : cs'.Pairwise (fun a b => a.f ≠ b.f) :=
+    (hp.pairwise_iff (fun {a b} (h : a.f ≠ b.f) => h.symm)).1 hd
+  rw [nli_eq_nliSpec len cs hd, nli_eq_nliSpec len cs' hd']
+  simp only [nliSpec]
+  rw [zip_map_eq, zip_map_eq]
+  have : (fun c => (c, nliOf len cs' c)) = (fun c => (c, nliOf len cs c)) := by
+    funext c; rw [nliOf_perm len cs cs' hp c]
+  rw [this]
+  exact hp.map _
+
+/-- the constructor's sort makes the supplied order irrelevant: two supplies of the same channels (pairwise distinct
+frequencies) are sorted into the same list -/
+theorem sortByF_eq_of_perm (l l' : List (ℝ × ℝ × ℝ)) (hp : l.Perm l')
+    (hd : l.Pairwise (fun a b => a.1 ≠ b.1)) : sortByF l = sortByF l' := by
+  have hd' : l'.Pairwise (fun a b => a.1 ≠ b.1) :=
+    (hp.pairwise_iff (fun {a b} (h : a.1 ≠ b.1) => h.symm)).1 hd
+  apply List.Perm.eq_of_pairwise (le := fun a b => a.1 < b.1)
+  · intro a b _ _ h1 h2; exact absurd h1 (lt_asymm h2)
+  · exact sortByF_sorted l hd
+  · exact sortByF_sorted l' hd'
+  · exact (sortByF_perm l).trans (hp.trans (sortByF_perm l').symm)
+
+/-- **constructor + `compute_nli` does not depend on the order in which the channels were supplied** -/
+theorem input_order_irrelevant (fib : Fibre ℝ) (l l' : List (ℝ × ℝ × ℝ)) (hp : l.Perm l')
+    (hd : l.Pairwise (fun a b => a.1 ≠ b.1)) : computeNliAny fib l = computeNliAny fib l' := by
+  simp only [computeNliAny, sortByF_eq_of_perm l l' hp hd]
+
+/-- a comb supplied in ascending frequency is left as it is -/
+theorem sortByF_sorted_id : ∀ (l : List (ℝ × ℝ × ℝ)), l.Pairwise (fun a b => a.1 < b.1) → sortByF l = l := by
+  intro l
+  induction l with
+  | nil => intro _; rfl
+  | cons c rest ih =>
+    intro h
+    rw [List.pairwise_cons] at h
+    simp only [sortByF, ih h.2]
+    cases rest with
+    | nil => rfl
+    | cons d rest' => simp [insertByF, h.1 d (by simp)]
+
+/-! ### the fibre coefficients -/
+
+/-- `alpha = loss[dB/m] · ln 10 / 10` -/
+theorem alpha_is_db (c : ℝ) : alphaOfLoss c = c * Real.log 10 / 10 := alphaOfLoss_eq c
+
+/-- `β₂ = −λ² D / (2π c)` with `λ = c / f`; a positive dispersion parameter gives a negative β₂ -/
+theorem beta2_formula (f d : ℝ) (hf : 0 < f) :
+    beta2OfDisp f d = -((cLight / f) ^ 2 * d) / (2 * Real.pi * cLight) ∧ (0 < d → beta2OfDisp f d < 0) := by
+  simp only [beta2OfDisp, cLight, haspi_real, Nat.cast_ofNat]
+  refine ⟨by ring, ?_⟩
+  intro hd
+  have hpi := Real.pi_pos
+  apply div_neg_of_neg_of_pos
+  · have : 0 < 299792458 / f * (299792458 / f) * d := by positivity
+    linarith
+  · positivity
+
+/-- at the reference frequency the scaled nonlinear coefficient is `2π n₂ f_ref / (c · A_eff)`,
+i.e. `2π n₂ / (λ_ref A_eff)`: the scaling law passes through the configured value -/
+theorem gamma_at_ref (fib : Fibre ℝ) (hA : 0 < fib.effArea) (hf : 0 < fib.refF) :
+    gammaAt fib fib.refF = 2 * Real.pi * n2 * fib.refF / (cLight * fib.effArea) := by
+  have hpi := Real.pi_pos
+  have hr : (0:ℝ) < coreRadius := by simp only [coreRadius, Nat.cast_ofNat]; norm_num
+  have hn : (0:ℝ) < n1 := by simp only [n1, Nat.cast_ofNat]; norm_num
+  have hc : (0:ℝ) < cLight := by simp only [cLight, Nat.cast_ofNat]; norm_num
+  have hE : 0 < Real.exp (Real.pi * (coreRadius * coreRadius) / fib.effArea) := Real.exp_pos _
+  have harea : effAreaScaling fib fib.refF = fib.effArea := by
+    simp only [effAreaScaling, contrast, transc_sqrt, transc_log, transc_exp, haspi_real, Nat.cast_ofNat, Nat.cast_one]
+    set x := cLight / (2 * Real.pi * fib.refF * coreRadius * n1) *
+      Real.exp (Real.pi * (coreRadius * coreRadius) / fib.effArea) with hx
+    have hxpos : 0 < x := by positivity
+    have hs : Real.sqrt (2 * (1 / 2 * (x * x))) = x := by
+      rw [show 2 * (1 / 2 * (x * x)) = x ^ 2 by ring, Real.sqrt_sq (le_of_lt hxpos)]
+    rw [hs]
+    have hv : 2 * Real.pi * fib.refF / cLight * coreRadius * n1 * x
+        = Real.exp (Real.pi * (coreRadius * coreRadius) / fib.effArea) := by
+      rw [hx]; field_simp
+    rw [hv, Real.log_exp]
+    have hq : 0 < Real.pi * (coreRadius * coreRadius) / fib.effArea := by positivity
+    rw [div_mul_div_comm, Real.mul_self_sqrt (le_of_lt hq)]
+    field_simp
+  simp only [gammaAt, harea, haspi_real, Nat.cast_ofNat]
+
+/-! ### non-vacuity -/
+
+/-- a typical channel: α = 4.6e-5 1/m (0.2 dB/km), 32 GBd, 1 mW -/
+noncomputable def exCh (f : ℝ) : LCh ℝ :=
+  { f := f, b := 32000000000, p := 1 / 1000, alpha := 46 / 1000000, beta2 := -(2 / 10 ^ 26), gamma := 13 / 10000 }
+
+example : WF (exCh 193000000000000) := ⟨by norm_num [exCh], by norm_num [exCh], by norm_num [exCh]⟩
+example : [exCh 193000000000000, exCh 193050000000000].Pairwise (fun a b => a.f ≠ b.f) := by
+  simp [exCh]
+example : Raised (exCh 1) { exCh 1 with p := 2 / 1000 } := ⟨rfl, rfl, rfl, rfl, rfl, by norm_num [exCh]⟩
+example : combAccepted [((193000000000000:ℝ), (32000000000:ℝ), (50000000000:ℝ)),
+    (193050000000000, 32000000000, 50000000000)] = true := by
+  simp [combAccepted, combOverlap, combExceed]; norm_num
+
+end Gnpy.Gn
